@@ -97,6 +97,9 @@ var props = map[string]propCfg{
 	"C15": {Level: "exploration", DeathIsViolation: true,
 		Quick:    tierCfg{Checks: 96000, Shards: 16, Guard: 10 * time.Minute},
 		Thorough: tierCfg{Checks: 1600000, Shards: 16, Guard: 90 * time.Minute, Race: true}},
+	"C20": {Level: "exploration",
+		Quick:    tierCfg{Checks: 32000, Shards: 16, Guard: 15 * time.Minute},
+		Thorough: tierCfg{Checks: 1600000, Shards: 16, Guard: 120 * time.Minute}},
 	"C19": {Level: "exploration",
 		Quick:    tierCfg{Checks: 4800, Shards: 16, Guard: 15 * time.Minute},
 		Thorough: tierCfg{Checks: 160000, Shards: 16, Guard: 120 * time.Minute}},
